@@ -428,6 +428,11 @@ def g_ttv(tier, seed):
                 yield C("ttv", op, "mode_rep", r, [A_list([A_vec(s[k], 0), A_vec(s[k], 1)]), A_ints([k, k])],
                         form="list", mode=k, **info)
             if n >= 2:
+                # a mode listed twice with another mode in between (not adjacent in the list)
+                for i, j in itertools.permutations(range(n), 2):
+                    yield C("ttv", op, "mode_rep", r,
+                            [A_list([A_vec(s[i], 0), A_vec(s[j], 1), A_vec(s[i], 2)]), A_ints([i, j, i])],
+                            form="list", modes=[i, j, i], **info)
                 for i, j in itertools.permutations(range(n), 2):
                     yield C("ttv", op, "control", r, [A_list([A_vec(s[i], 0), A_vec(s[j], 1)]), A_ints([i, j])],
                             form="list", modes=[i, j], **info)
@@ -494,6 +499,10 @@ def g_ttm(tier, seed):
                     yield C("ttm", op, "size", r, [A_list(bad)], {"transpose": tr}, form="all", mode=k,
                             transpose=tr, **info)
             if n >= 2:
+                for i, j in itertools.permutations(range(n), 2):
+                    yield C("ttm", op, "mode_rep", r,
+                            [A_list([A_mat(s[i], s[i]), A_mat(s[j], s[j], 1), A_mat(s[i], s[i], 2)]), A_ints([i, j, i])],
+                            form="list", modes=[i, j, i], **info)
                 for i, j in itertools.permutations(range(n), 2):
                     yield C("ttm", op, "control", r, [A_list([A_mat(2, s[i]), A_mat(3, s[j], 1)]), A_ints([i, j])],
                             form="list", modes=[i, j], **info)
@@ -904,6 +913,16 @@ def g_ctor(tier, seed):
                 yield C("ctor", "ttb.sptenmat", "count", None,
                         [{"ints": [0, 0], "shape": [1, 2]}, {"floats": [5.0, 7.0], "shape": [2, 1]}, A_ints(rdo),
                          A_ints(cdl), {"tuple": list(s)}], rdims=rdo, cdims=cdl, **info)
+                # a subscript outside the matrix is outside whatever value it carries: an exact zero, or a pair of
+                # entries that cancel, next to a valid entry
+                for (i, j, var) in ((pr, 0, "sub_oor"), (0, pc, "sub_oor"), (-1, 0, "sub_neg")):
+                    yield C("ctor", "ttb.sptenmat", var, None,
+                            [{"ints": [0, 0, i, j], "shape": [2, 2]}, {"floats": [5.0, 0.0], "shape": [2, 1]}, A_ints(rdo),
+                             A_ints(cdl), {"tuple": list(s)}], rdims=rdo, cdims=cdl, sub=[i, j], value="zero", **info)
+                    yield C("ctor", "ttb.sptenmat", var, None,
+                            [{"ints": [i, j, 0, 0, i, j], "shape": [3, 2]}, {"floats": [2.5, 5.0, -2.5], "shape": [3, 1]},
+                             A_ints(rdo), A_ints(cdl), {"tuple": list(s)}], rdims=rdo, cdims=cdl, sub=[i, j],
+                            value="cancelling", **info)
                 for (a, b, var) in ((pr, pc, "control"), (pr + 1, pc, "size"), (pr, pc + 1, "size")):
                     yield C("ctor", "sptenmat.from_array", var, None,
                             [{"arr": [a, b]}, A_ints(rdo), A_ints(cdl), {"tuple": list(s)}], rdims=rdo, cdims=cdl,
@@ -1265,7 +1284,46 @@ def g_inplace(tier, seed):
                                     region=reg2, rhs=list(t), rhs_kind=rk, grows=grows or og, shape=list(s))
 
 
-GROUPS = [g_innerprod, g_elementwise, g_ttv, g_ttm, g_mttkrp, g_ttt, g_modes, g_ctor, g_algo, g_inplace]
+def g_symm(tier, seed):
+    """symmetry groups: the grouped modes have equal sizes, exist, and no mode belongs to two groups (nor twice to one);
+    receivers: generic entries and a constant tensor (already symmetric under every group, so that no early exit for
+    'nothing to do' may answer an ill-formed request)"""
+    shapes = [(2, 2), (2, 2, 2), (2, 3, 2), (2, 2, 2, 2)] + ([(3, 3, 3), (3, 2, 2, 3)] if tier == "thorough" else [])
+    for s in shapes:
+        n = len(s)
+        for rk, r in (("generic", hd("tensor", s, seed)),
+                      ("constant", {"kind": "tensor", "shape": list(s), "vals": [2.0] * prod(s)})):
+            info = dict(shape=list(s), data=rk)
+            for op, kws in (("tensor.symmetrize", ({}, {"version": 1})),
+                            ("tensor.issymmetric", ({}, {"version": 1}, {"return_details": True}))):
+                for kw in kws:
+                    vname = ",".join(f"{k}={v}" for k, v in kw.items()) or "default"
+                    # issymmetric is a question: "symmetric in modes of different sizes?" (no), "... under two
+                    # overlapping swaps?" or "... under swapping a mode with itself?" are well-formed questions with an
+                    # answer, so only symmetrize (which must BUILD the symmetric tensor) has these as preconditions
+                    build = op == "tensor.symmetrize"
+                    pairs = [(i, j) for i in range(n) for j in range(i + 1, n)]
+                    for i, j in pairs:
+                        g = {"ints": [i, j], "shape": [1, 2]}
+                        if s[i] == s[j] or build:
+                            yield C("symm", op, "control" if s[i] == s[j] else "size", r, [g], dict(kw), grps=[[i, j]],
+                                    opt=vname, **info)
+                    if n >= 3 and build:
+                        for (a, b), (c, d) in itertools.permutations(pairs, 2):
+                            if {a, b} & {c, d} and s[a] == s[b] and s[c] == s[d]:
+                                yield C("symm", op, "mode_rep", r, [{"ints": [a, b, c, d], "shape": [2, 2]}], dict(kw),
+                                        grps=[[a, b], [c, d]], opt=vname, **info)
+                    if n >= 4 and s[0] == s[1] and s[2] == s[3]:
+                        yield C("symm", op, "control", r, [{"ints": [0, 1, 2, 3], "shape": [2, 2]}], dict(kw),
+                                grps=[[0, 1], [2, 3]], opt=vname, **info)
+                    if build:
+                        yield C("symm", op, "mode_rep", r, [{"ints": [0, 0], "shape": [1, 2]}], dict(kw), grps=[[0, 0]],
+                                opt=vname, **info)
+                    yield C("symm", op, "mode_oor", r, [{"ints": [0, n], "shape": [1, 2]}], dict(kw), grps=[[0, n]],
+                            opt=vname, **info)
+
+
+GROUPS = [g_innerprod, g_elementwise, g_ttv, g_ttm, g_mttkrp, g_ttt, g_modes, g_ctor, g_algo, g_inplace, g_symm]
 
 
 def gen_cases(tier, seed):
